@@ -7,6 +7,8 @@ package token
 /*@
 // the keyword table is a constant map: its content is its own specification
 spec kw(lit string) TokenType
+// TRUSTED fact about the table: no spelling maps to a structural token kind
+axiom kw_not_structural: forall l string :: kw(l) != EOF && kw(l) != ILLEGAL && kw(l) != COMMENT && kw(l) != ALIAS_PARAMETER
 
 func KeywordToTokenType
   pure
